@@ -126,8 +126,44 @@ def _run_check(pid, P, fam, tier, seed, work, t0):
         for b in base:
             if b.get("counterexample_actions"):
                 extra.append(fam["cex_input"](b["counterexample_actions"]))
-    out, meta, val = _drive_and_validate(work, fam, P, tier, seed, binary, "drive", extra_inputs=extra)
+    # a fatal runtime error of the code under test kills the driver: find the input(s) that do it by re-running the
+    # inputs that were in flight alone, leave them out and drive again; for the totality properties the crash is the verdict
+    crashed = []
+    for attempt in range(5):
+        try:
+            fam_try = dict(fam)
+            if crashed:
+                sp = os.path.join(work.dir, "skip-%d.txt" % attempt)
+                with open(sp, "w") as f:
+                    f.write("\n".join(crashed) + "\n")
+                fam_try["drive_env"] = dict(fam.get("drive_env") or {}, VERIF_SKIP=sp)
+            out, meta, val = _drive_and_validate(work, fam_try, P, tier, seed, binary, "drive-%d" % attempt if attempt else "drive", extra_inputs=extra)
+            break
+        except DriverCrash as dc:
+            culprits = []
+            for n, key in enumerate(dc.inflight[:16]):
+                rf = os.path.join(work.dir, "crash-in-%d-%d.json" % (attempt, n))
+                with open(rf, "w") as f:
+                    f.write(key)
+                try:
+                    run_vdrive(binary, fam["vdrive"], work.sub("crash-%d-%d" % (attempt, n)), tier, seed, args=dict(fam.get("args", {}), **P.get("args", {})), replay=rf,
+                               timeout=fam.get("crash_timeout", 120), env_extra=fam.get("drive_env"))
+                except DriverCrash as dc2:
+                    culprits.append(key)
+                    log("input kills the driver process when run alone: %s :: %s" % (key[:200], str(dc2).strip().splitlines()[-1][:200] if str(dc2).strip() else ""))
+            if not culprits or attempt == 4:
+                raise
+            crashed.extend(culprits)
     r = _examine(work, fam, P, pid, tier, seed, binary, out, meta, val)
+    if crashed:
+        if pid in fam.get("crash_props", []):
+            for n, key in enumerate(crashed[:3]):
+                path = write_replay(pid, "crash%d" % n, dict(property=pid, family=P["family"], input=json.loads(key), seed=seed, tier=tier,
+                                                              violations=[dict(aspect="process-died-or-did-not-terminate", detail="fatal runtime error or timeout when the input is driven alone", line=0)]))
+                r["violations"].append(path)
+                print("VIOLATION property=%s replay=%s" % (pid, path), flush=True)
+        else:
+            log("%d input(s) kill the driver and were left out (reported by %s)" % (len(crashed), "/".join(fam.get("crash_props", [])) or "no property"))
     traces, events, states, nontriv = int(meta["traces"]), int(val["events"]), int(val["states"]), int(meta["nontrivial"].get(pid, 0))
     # further families that decide the same property on another input space (e.g. another alphabet of the same model)
     import registry
@@ -219,7 +255,14 @@ def run_replay(pid, P, fam, path):
         rf = os.path.join(work.dir, "in.json")
         with open(rf, "w") as f:
             json.dump(payload["input"], f)
-        _, _, val = _drive_and_validate(work, fam, P, payload.get("tier", "quick"), payload.get("seed", 1), binary, "replay", replay_file=rf)
+        try:
+            _, _, val = _drive_and_validate(work, fam, P, payload.get("tier", "quick"), payload.get("seed", 1), binary, "replay", replay_file=rf)
+        except DriverCrash as dc:
+            if pid in fam.get("crash_props", []):
+                log("replay: the input kills the driver process: %s" % str(dc).strip().splitlines()[-1][:200])
+                print("VIOLATION property=%s replay=%s" % (pid, path), flush=True)
+                return 1
+            raise
         findings = [k for k in load_known() if k["property"] == pid]
         hit = [v for v in val["viols"] if v["prop"] == pid and not known.match(findings, v, payload["input"])]
         for v in hit[:10]:
